@@ -491,10 +491,17 @@ class Parser:
 
         return s.encode()[0]
 
+    def _string_value(self, token: TokenInfo) -> Any:
+        try:
+            return ast.literal_eval(token.string)
+        except SyntaxError as e:
+            # e.g. a truncated escape: report it at the literal in the source, not at the literal's own line 1
+            self.raise_syntax_error_known_location(e.msg, token)
+
     def _concat_strings_in_constant(self, parts: list[TokenInfo]) -> ast.Constant:
-        s = ast.literal_eval(parts[0].string)
+        s = self._string_value(parts[0])
         for ss in parts[1:]:
-            s += ast.literal_eval(ss.string)
+            s += self._string_value(ss)
         args = {
             "value": s,
             "lineno": parts[0].start[0],
